@@ -27,7 +27,8 @@ CONSTANTS
     Rot,         \* rotation offset of the message-length choice (derived from the seed)
     Crafts,      \* TRUE: include the crafted Ed25519 constructions
     LinkRing,    \* linkage-tag behaviours over rings of size 1..LinkRing (0 = none)
-    ReuseLen     \* object-reuse behaviours: every sequence of exactly ReuseLen calls on one signer object (0 = none)
+    ReuseLen,    \* object-reuse behaviours: every sequence of exactly ReuseLen calls on one signer object (0 = none)
+    Conc         \* TRUE: concurrent-verification behaviours
 
 MsgLens == <<0, 1, 63, 64, 65, 4096>>
 
@@ -114,6 +115,8 @@ KeyDevs(s)   == IF IsRing(s.scheme) THEN {} ELSE {"other"}
 MsgDevs(s)   == {"extend"} \cup (IF s.ml > 0 THEN {"flip", "trunc"} ELSE {})
 RingDevs(s)  == IF ~IsRing(s.scheme) THEN {}
                 ELSE {"ext", "shrink", "swap-signer"} \cup (IF s.n >= 2 THEN {"perm", "rot", "swap-other"} ELSE {})
+                     \* a ring member replaced by member + torsion point (another point, hence another ring)
+                     \cup (IF IsEd(s.scheme) THEN {"shift-torsion"} ELSE {})
 ScopeDevs(s) == IF ~IsRing(s.scheme) THEN {} ELSE IF s.scoped THEN {"other", "drop"} ELSE {"add", "add-empty"}
 
 (* Link-scope classes: nil = unlinkable; a NON-NIL scope is linkable whatever its length, the empty  *)
@@ -159,7 +162,7 @@ NewSig(sch, n, pos, sc, ml, c) ==
 NoSig  == NewSig("none", 1, 0, FALSE, 0, Honest)
 NoSig2 == [n |-> 0, pos |-> 0, samekey |-> TRUE, samescope |-> TRUE, samering |-> TRUE, samemsg |-> TRUE]
 
-NoRu   == [kind |-> "none", cur |-> 0, lk |-> 0, lm |-> 0, n |-> 0]
+NoRu   == [kind |-> "none", cur |-> 0, lk |-> 0, lm |-> 0, n |-> 0, outs |-> <<>>]
 
 Init == sig = NoSig /\ sig2 = NoSig2 /\ ru = NoRu /\ phase = "start" /\ out = "none" /\ hist = <<>>
 
@@ -276,7 +279,7 @@ RLoad(k, how)  == RStep([act |-> "RLoad", key |-> k, how |-> how], [ru EXCEPT !.
 RSign(m)       == ru.cur # 0 /\
                   RStep([act |-> "RSign", msg |-> m, key |-> ru.cur,
                          obs |-> IF ru.kind = "eddsa" THEN "rfc8032-bytes" ELSE "any"],
-                        [ru EXCEPT !.lk = ru.cur, !.lm = m])
+                        [ru EXCEPT !.lk = ru.cur, !.lm = m, !.outs = Append(@, [key |-> ru.cur, msg |-> m])])
 RMarshal       == ru.kind = "eddsa" /\ ru.cur # 0 /\ RStep([act |-> "RMarshal", key |-> ru.cur], ru)
 RReload        == ru.kind = "eddsa" /\ ru.cur # 0 /\ RStep([act |-> "RReload", key |-> ru.cur], ru)
 RVerdict(ks, ms) == IF ks /\ ms THEN "accept" ELSE "reject"
@@ -284,7 +287,18 @@ RVerify(ks, ms) == ru.lk # 0 /\
                    RStep([act |-> "RVerify", signedkey |-> ru.lk, signedmsg |-> ru.lm, samekey |-> ks, samemsg |-> ms,
                           exp |-> RVerdict(ks, ms)], ru)
 
+(* Returned signatures are VALUES: a later call on the same signer object (Sign of another message,  *)
+(* re-keying, marshalling) must not change a signature it handed out earlier.  The mandatory last    *)
+(* step of every reuse behaviour audits all of them: each slice returned by the i-th RSign is still  *)
+(* byte-identical to what it was when returned and still verifies for (key, msg) of outs[i].          *)
+RAudit ==
+    /\ phase = "reuse" /\ ru.n = ReuseLen
+    /\ phase' = "audited"
+    /\ hist' = Append(hist, [act |-> "RAudit", outs |-> ru.outs, exp |-> "unchanged-and-accepted"])
+    /\ UNCHANGED <<sig, sig2, ru, out>>
+
 NextReuse ==
+    \/ RAudit
     \/ (phase = "start" /\ \E kind \in RKinds : RStart(kind))
     \/ (phase = "reuse" /\ \E k \in RKeys, how \in (IF ru.kind = "eddsa" THEN {"unmarshal", "new"} ELSE {"switch"}) : RLoad(k, how))
     \/ (phase = "reuse" /\ \E m \in RMsgs : RSign(m))
@@ -294,7 +308,33 @@ NextReuse ==
 ReuseSound == (phase = "reuse") => (ru.cur \in {0} \cup RKeys /\ ru.lk \in {0} \cup RKeys /\ (ru.lk # 0 => ru.lm \in RMsgs)
                                     /\ \A ks, ms \in BOOLEAN : (RVerdict(ks, ms) = "accept") <=> (ks /\ ms))
 
-Next == NextVerify \/ (LinkRing > 0 /\ NextLink) \/ NextReuse
+(* ---------------- concurrent verification ---------------- *)
+(* An honest signature under a FRESHLY COMPUTED public-key object (x*B straight from Mul, never      *)
+(* encoded or decoded) is verified by g goroutines at once against that ONE shared key object:       *)
+(* every verdict is accept, a sequential verification afterwards accepts too and the key object      *)
+(* still encodes as x*B.  (Verification only reads its arguments: C20 for the library as a whole;    *)
+(* here it is C08's "an honest signature verifies" that must survive shared use.)                     *)
+ConcG == {2, 8}
+CStart(sch, g) ==
+    /\ phase = "start" /\ Conc
+    /\ ru' = [NoRu EXCEPT !.kind = "conc", !.cur = g]
+    /\ phase' = "conc"
+    /\ hist' = <<[act |-> "CSign", scheme |-> sch, goroutines |-> g, key |-> "fresh-from-mul"]>>
+    /\ UNCHANGED <<sig, sig2, out>>
+CPar ==
+    /\ phase = "conc" /\ ru.n = 0
+    /\ ru' = [ru EXCEPT !.n = 1]
+    /\ hist' = Append(hist, [act |-> "CVerifyPar", goroutines |-> ru.cur, exp |-> "all-accept"])
+    /\ UNCHANGED <<sig, sig2, phase, out>>
+CSeq ==
+    /\ phase = "conc" /\ ru.n = 1
+    /\ ru' = [ru EXCEPT !.n = 2]
+    /\ phase' = "conc-done"
+    /\ hist' = Append(hist, [act |-> "CVerifySeq", exp |-> "accept", keyobj |-> "unchanged"])
+    /\ UNCHANGED <<sig, sig2, out>>
+NextConc == (\E sch \in Schemes, g \in ConcG : CStart(sch, g)) \/ CPar \/ CSeq
+
+Next == NextVerify \/ (LinkRing > 0 /\ NextLink) \/ NextReuse \/ NextConc
 Spec == Init /\ [][Next]_vars
 
 (* ---------------- meta-properties of the verdict relation ---------------- *)
@@ -348,11 +388,11 @@ TamperMonotone ==
 LinkSound == (phase = "linked") => ((out = "equal") <=> (sig2.samekey /\ sig2.samescope))
 
 TypeOK ==
-    /\ phase \in {"start", "signed", "signed1", "verified", "linked", "reuse"}
+    /\ phase \in {"start", "signed", "signed1", "verified", "linked", "reuse", "audited", "conc", "conc-done"}
     /\ out \in {"none", "accept", "reject", "free", "equal", "different"}
     /\ sig.pos < sig.n /\ Cardinality(sig.tam) <= MaxDist
 
 (* ---------------- generator ---------------- *)
 View == <<sig, sig2, ru, phase, out>>
-Emit == (phase \in {"verified", "linked"} \/ (phase = "reuse" /\ ru.n = ReuseLen)) => PrintT(<<"TRACE", ToJson(hist)>>)
+Emit == (phase \in {"verified", "linked", "audited", "conc-done"}) => PrintT(<<"TRACE", ToJson(hist)>>)
 =============================================================================
